@@ -24,6 +24,8 @@ P1 == <<40, 97, 41, 98, 63>>                             \* (a)b?
 P2 == <<40, 97, 41, 40, 98, 41, 63>>                     \* (a)(b)?
 P3 == <<40, 97, 41, 124, 40, 98, 41, 124, 40, 99, 41>>   \* (a)|(b)|(c)
 P12 == <<40,97,41,40,98,41,40,99,41,40,97,41,40,98,41,40,99,41,40,97,41,40,98,41,40,99,41,40,97,41,40,98,41,40,99,41>>   \* (a)(b)(c) x 4
+\* (a)(b)(c)(a)(b)(c)(a)(b)(c)(x)?(y*)(a) : group 10 does not participate, group 11 matches the empty string, group 12 is "a"
+P12o == <<40,97,41,40,98,41,40,99,41,40,97,41,40,98,41,40,99,41,40,97,41,40,98,41,40,99,41,40,120,41,63,40,121,42,41,40,97,41>>
 PE == <<98, 42>>                                         \* b*   (empty matches)
 PA == <<94, 97, 124, 99, 36>>                            \* ^a|c$
 PI == <<40, 63, 105, 41, 97, 43>>                        \* (?i)a+
@@ -48,6 +50,17 @@ Limits == {IntV(0), IntV(1), IntV(2), IntV(4), IntV(0 - 1), Num(3, 2)}
 
 Init == /\ \/ \E t \in Templates, p \in {P0, P1, P2, P3, P12, PQ, PB} : case = MkCase(F("replace", <<S, RX(p), NStr(Tpl(t))>>), Str(<<97, 98, 99, 97, 98, 99, 97, 98, 99, 97, 98, 99>>))
            \/ \E t \in ExtraTemplates \cup {<<60, 36, 49, 62>>}, p \in {P0, P1, P2, P3, P12, PQ, PB}, s \in Subjects : case = MkCase(F("replace", <<S, RX(p), NStr(t)>>), Str(s))
+           \/ \E t \in ExtraTemplates \cup {<<36, 49>>, <<36, 57>>, <<36, 49, 49>>, <<60, 36, 49, 48, 124, 36, 49, 49, 124, 36, 49, 50, 124, 36, 49, 51, 62>>} :
+                    case = MkCase(F("replace", <<S, RX(P12o), NStr(t)>>), Str(<<97, 98, 99, 97, 98, 99, 97, 98, 99, 97, 120>>))
+           \* one regex value applied to several subjects: every match object keeps its own match, groups and next chain
+           \/ \E p \in {P1, P2, PN, PB, <<97, 40, 46, 41>>}, s1 \in {<<97, 98>>, <<97, 98, 97, 99>>}, s2 \in {<<97, 99>>, <<120, 97, 100, 97, 98>>} :
+                    \/ case = MkCase(NBlock(<<NAssign("r", RX(p)), NAssign("x", NCall(NVar("r"), <<NStr(s1)>>)), NAssign("y", NCall(NVar("r"), <<NStr(s2)>>)),
+                                             NArray(<<NVar("x"), NVar("y")>>)>>), Str(<<>>))
+                    \/ case = MkCase(NBlock(<<NAssign("r", RX(p)), NAssign("x", NCall(NVar("r"), <<NStr(s1)>>)),
+                                             NAssign("n", NPath(<<NVar("x"), NCall(NName(<<110, 101, 120, 116>>), <<>>)>>, FALSE)),
+                                             NAssign("y", NCall(NVar("r"), <<NStr(s2)>>)),
+                                             NArray(<<NVar("x"), NVar("n"), NVar("y")>>)>>), Str(<<>>))
+                    \/ case = MkCase(NPath(<<NBlock(<<NCall(NVar("map"), <<NArray(<<NStr(s1), NStr(s2), NStr(s1)>>), RX(p)>>)>>), NName(<<103, 114, 111, 117, 112, 115>>)>>, FALSE), Str(<<>>))
            \/ \E p \in Patterns, s \in Subjects : case = MkCase(F("match", <<S, RX(p)>>), Str(s))
            \/ \E p \in Patterns, s \in Subjects, l \in Limits : case = MkCase(F("match", <<S, RX(p), NNum(l)>>), Str(s))
            \/ \E p \in Patterns \cup {PS}, s \in Subjects : case = MkCase(F("contains", <<S, RX(p)>>), Str(s))
